@@ -132,7 +132,9 @@ class OpGen:
         # reads from arrays)
         if self.cfg.npint and op.get("op") not in ("undo", "redo", "features") \
                 and self.rng.random() < 0.7:
-            op["np"] = True
+            # what np.unique / array indexing of a label layer hands out
+            op["np"] = self.rng.choice(["int64", "int64", "uint64", "int32", "uint32",
+                                        "uint16", "array-edge"])
         return op
 
     def iou_key(self, tracks):
@@ -646,7 +648,13 @@ def execute_inner(tracks, op: dict) -> Outcome:
     k = op["op"]
     info: dict = {}
     restore = None
-    I = (lambda x: np.int64(x)) if op.get("np") else (lambda x: x)  # noqa: E741
+    npk = op.get("np")
+    if npk in (True, "array-edge"):
+        npk_dt = np.int64
+    elif npk:
+        npk_dt = np.dtype(npk).type
+    I = (lambda x: npk_dt(x) if x >= 0 or npk_dt(0).dtype.kind == "i" else x) if npk \
+        else (lambda x: x)  # noqa: E741
     try:
         with warnings.catch_warnings():
             warnings.simplefilter("ignore")
@@ -674,10 +682,13 @@ def execute_inner(tracks, op: dict) -> Outcome:
             elif k == "delete_node":
                 a = UserDeleteNode(tracks, I(op["node"]))
             elif k == "add_edge":
-                a = UserAddEdge(tracks, tuple(I(x) for x in op["edge"]),
-                                force=op.get("force", False))
+                e = np.array(op["edge"]) if npk == "array-edge" else \
+                    tuple(I(x) for x in op["edge"])
+                a = UserAddEdge(tracks, e, force=op.get("force", False))
             elif k == "delete_edge":
-                a = UserDeleteEdge(tracks, tuple(I(x) for x in op["edge"]))
+                e = np.array(op["edge"]) if npk == "array-edge" else \
+                    tuple(I(x) for x in op["edge"])
+                a = UserDeleteEdge(tracks, e)
             elif k == "swap":
                 a = UserSwapPredecessors(tracks, tuple(I(x) for x in op["nodes"]))
             elif k == "update_attrs":
